@@ -127,6 +127,42 @@ MUTANTS = {
     "c19-planestress-loose": ("C19", "EasyFEA/Models/InElastic/_behavior.py",
         "            if np.max(np.abs(r_e_pg)) < tol:\n                break\n",
         "            if np.max(np.abs(r_e_pg)) < 1e6 * tol:\n                break\n"),
+    # ---- C17
+    "c17-history-max-dropped": ("C17", "EasyFEA/Simulations/_phasefield.py",
+        "            psiP_e_pg[elements, gaussPoints] = old_psiPlus_e_pg[elements, gaussPoints]\n",
+        "            pass\n"),
+    "c17-historydamage-not-stored": ("C17", "EasyFEA/Simulations/_phasefield.py",
+        "            self._Set_solutions(self.ProblemTypes.damage, d_np1)\n            self.__updatedDisplacement = False\n",
+        "            pass\n"),
+    "c17-boundconstrain-lb": ("C17", "EasyFEA/Simulations/_phasefield.py",
+        "                lb = self.damage\n                lb[np.where(lb >= 1)] = 1 - np.finfo(float).eps\n",
+        "                lb = self.damage * 0.5\n                lb[np.where(lb >= 1)] = 1 - np.finfo(float).eps\n"),
+    # ---- C18
+    "c18-midpoint-corrector": ("C18", "EasyFEA/Simulations/_simu.py",
+        "            v_np1 = 2 / dt * (u_np1 - u_n) - v_n\n            a_np1 = 2 / dt * (v_np1 - v_n) - a_n\n\n            return u_np1, v_np1, a_np1\n",
+        "            v_np1 = 2 / dt * (u_np1 - u_n) - 0.999 * v_n\n            a_np1 = 2 / dt * (v_np1 - v_n) - a_n\n\n            return u_np1, v_np1, a_np1\n"),
+    "c18-mass-not-in-residual": ("C18", "EasyFEA/Simulations/_hyperelastic.py",
+        "                    groupElem.Locates_sol_e(accel, dim),\n",
+        "                    0.98 * groupElem.Locates_sol_e(accel, dim),\n"),
+    # ---- C20
+    "c20-ghost-layer-one-rank-short": ("C20", "EasyFEA/FEM/_mesher.py",
+        "                mask = np.isin(other_connect, nodes_arr).any(axis=1)\n",
+        "                mask = np.isin(other_connect, nodes_arr).any(axis=1) & (other_rank != rank + 1)\n"),
+    "c20-energy-all-rows": ("C20", "EasyFEA/Simulations/_simu.py",
+        "        return Reduce_sum(0.5 * x[dofs] @ (A[dofs] @ x))\n",
+        "        return Reduce_sum(0.5 * x @ (A @ x))\n"),
+    "c20-reaction-not-restricted": ("C20", "EasyFEA/Simulations/_simu.py",
+        "            dofs = dofs[np.isin(dofs, ownedDofs)]\n",
+        "            dofs = dofs\n"),
+    "c20-interface-node-two-owners": ("C20", "EasyFEA/FEM/_mesher.py",
+        "            nodes = set(connect_r.ravel()) - otherRankNodes\n",
+        "            nodes = set(connect_r.ravel()) - (otherRankNodes if rank % 2 == 0 else set())\n"),
+    "c20-sync-order": ("C20", "EasyFEA/Utilities/_mpi.py",
+        "    full[ordering] = buf\n",
+        "    full[np.sort(ordering)] = buf\n"),
+    "c20-local-slice-owned-only": ("C20", "EasyFEA/Simulations/_simu.py",
+        "        nodes = self.mesh.nodes\n\n        iter = iter.copy()\n",
+        "        nodes = self.mesh._Get_mpi_owned_nodes()\n\n        iter = iter.copy()\n"),
 }
 
 
